@@ -413,9 +413,9 @@ def sensor : FormatSpec where
 /-! ### ACF abbreviated Sensor (9.4.11, Figure 33) -/
 def sensorBrief : FormatSpec where
   name := "SensorBrief"; file := "src/avtp/acf/SensorBrief.c"
-  enumPrefix := "AVTP_SENSOR_BRIEF_FIELD_"; maxEnum := "AVTP_SENSOR_FIELD_MAX"
+  enumPrefix := "AVTP_SENSOR_BRIEF_FIELD_"; maxEnum := "AVTP_SENSOR_BRIEF_FIELD_MAX"
   fnPrefix := "Avtp_SensorBrief_"; headerType := "Avtp_SensorBrief_t"
-  lenMacro := "AVTP_SENSOR_HEADER_LEN"; headerLen := 4
+  lenMacro := "AVTP_SENSOR_BRIEF_HEADER_LEN"; headerLen := 4
   layout := acfHead ++
     [f "MTV" "Mtv" 1, f "NUM_SENSOR" "NumSensor" 7, f "SZ" "Sz" 2,
      f "SENSOR_GROUP" "SensorGroup" 6]
